@@ -97,6 +97,9 @@ type rawConn struct {
 	mu     sync.Mutex // writes
 	nextID uint32
 	rbuf   []byte
+	// wt > 0: a write gives up after wt (a hostile client that does not read its replies and whose own
+	// write stalls against a server that is itself blocked writing to it must not wait for ever)
+	wt time.Duration
 }
 
 type rawFrame struct {
@@ -131,6 +134,9 @@ func (r *rawConn) id() uint32 {
 func (r *rawConn) sendBytes(b []byte) error {
 	r.mu.Lock()
 	defer r.mu.Unlock()
+	if r.wt > 0 {
+		r.c.SetWriteDeadline(time.Now().Add(r.wt))
+	}
 	_, err := r.c.Write(b)
 	return err
 }
